@@ -13,7 +13,7 @@ variable {m n : Nat} [NeZero m] [NeZero n]
 theorem tie_discordance (A : Mat m n α) (o : Vec n Obj) (a b : Fin m) :
     (Gen.discordance ⟨A⟩ ⟨fun j => (o j).sgn⟩).v a b = Electre.discordance A o a b := by
   simp only [Gen.discordance, Np.map_rows, Np.fill_diagonal_nan, Np.tile, Np.shape0, Np.subtract, Np.logical_or, Np.logical_and,
-    Np.equal, Np.less, Np.multiply, Np.divide, Np.abs, Np.max, Np.min, Bc.zw, Red.red, Mp.mp, EMul.emul, Electre.discordance,
+    Np.equal, Np.less, Np.multiply, Np.divide, Np.abs, Np.max, Np.min, Np.asarray, Np.squeeze, Bc.zw, Red.red, Mp.mp, EMul.emul, Electre.discordance,
     Electre.maxRange]
   split
   · rfl
